@@ -76,6 +76,25 @@ func rulesC10(c *Ctx) {
 	swapC10(c, tt, ce, gtr)
 	intersectC10(c)
 	passthroughC10(c, ce)
+	c.Rule("C10.pure", "ConditionExpr and everything it calls in the package (conditionExpr, getTimeRange, ToTimeLiteral, Reduce, ...) read no mutable package-level state: the range extracted from a condition depends on the condition and the valuer only, not on which conditions were split before")
+	pureRule(c, "C10.pure", "ConditionExpr")
+	c.Rule("C10.exactint", "getTimeRange takes an integer bound to the instant through integer arithmetic only: no integer is converted to floating point on the way (nanosecond timestamps exceed 2^53, so a float detour moves the bound by up to 128ns)")
+	if g := gtr; g != nil {
+		n := 0
+		for _, b := range g.Blocks {
+			for _, in := range b.Instrs {
+				if cv, ok := in.(*ssa.Convert); ok {
+					fb, ok1 := cv.X.Type().Underlying().(*types.Basic)
+					tb, ok2 := cv.Type().Underlying().(*types.Basic)
+					if ok1 && ok2 && fb.Info()&types.IsInteger != 0 && tb.Info()&types.IsFloat != 0 {
+						n++
+						c.Bad("C10.exactint", fmt.Sprintf("getTimeRange: %s -> %s #%d", fb.Name(), tb.Name(), n), cv.Pos(), "an integer bound is converted to floating point before it becomes an instant")
+					}
+				}
+			}
+		}
+		c.OK("C10.exactint", "getTimeRange: integer-to-float conversions", g.Pos(), fmt.Sprintf("%d", n))
+	}
 	sentinelsC10(c)
 	residualC10(c, ce)
 	// the residual is built through reduce: its boolean short-cuts decide
